@@ -1040,15 +1040,37 @@ def main(argv):
     run.count("same_meaning_pairs_with_equal_signature", sum(
         1 for v in same_meaning.values() for x, y in itertools.combinations(v, 2) if sig[x] == sig[y]
     ))
+    def ndiff(x, y):
+        if recs[x][0] != recs[y][0]:
+            return 99
+        return sum(recs[x][1][p] != recs[y][1][p] for p in recs[x][1])
+
     viol = []
     for s, ks in by_sig.items():
+        if len(ks) < 2:
+            continue
+        # union-find over one-step edges inside the group of equal signatures: a multi-step collision that
+        # is a chain of reported one-step collisions is counted, not reported again under its own key
+        parent = {k: k for k in ks}
+
+        def find(a):
+            while parent[a] != a:
+                parent[a] = parent[parent[a]]
+                a = parent[a]
+            return a
+
+        for x, y in itertools.combinations(ks, 2):
+            if ndiff(x, y) == 1:
+                parent[find(x)] = find(y)
         for x, y in itertools.combinations(ks, 2):
             if meaning[x] != meaning[y]:
                 fam, part = pair_family(recs[x], recs[y])
+                run.count("colliding_pairs:" + fam)
+                if ndiff(x, y) > 1 and find(x) == find(y):
+                    run.count("colliding_pairs_implied_by_one_step_chain")
+                    continue
                 viol.append((f"{fam}:{part}", rec_str(recs[x]), rec_str(recs[y]), x, y))
     for key, sx, sy, x, y in sorted(viol):
-        fam = key.split(":")[0]
-        run.count("colliding_pairs:" + fam)
         run.violation(
             key,
             f"different compiled meaning, equal signature: {sx} vs {sy}",
